@@ -36,10 +36,10 @@ from ..model import AnalysisError
 from ..x_taint import flow_taint, expr_tainted
 from ..x_flow import expand_locals
 from ..x_sites import method_calls
-from ..x_peval import UNK, make_resolver, pure_self_methods, peval, try_fold
+from ..x_peval import UNK, make_resolver, pure_self_methods, module_constants, class_constants, peval, try_fold
 
 from ..x_http import norm_func
-from ..x_objalias import subst_object_aliases
+from ..x_objalias import subst_object_aliases, inline_constants, through_local
 
 # private helpers that the rules model by name (sanitisers / summarised effects) and therefore must stay calls
 KEEP_CALLS = {"_format_chunk", "_convert_header_value", "_clear_representation_headers", "_can_keep_alive",
@@ -50,7 +50,7 @@ def F(ck, relpath, qualname):
     """The anchored function with its private same-file helpers inlined (function splitting is followed, depth 3)."""
     fi = ck.func(relpath, qualname)
     try:
-        return subst_object_aliases(norm_func(ck.repo, fi, depth=3, no_inline=KEEP_CALLS))
+        return inline_constants(subst_object_aliases(norm_func(ck.repo, fi, depth=3, no_inline=KEEP_CALLS)))
     except AnalysisError:
         raise
     except Exception as e:  # the normaliser must never turn into a verdict
@@ -74,6 +74,14 @@ def absent(fi, what, keep=()):
     return False
 
 
+def OB(ck, env, rule, fi, node, ok, what, construct=None):
+    """ck.ob for verdicts derived from a partial evaluation: a failing verdict reached through a test that involves a
+    fixed input but could not be decided is not positive evidence — fail closed instead of reporting it."""
+    if not ok and env is not None and env.get("@partial"):
+        raise AnalysisError("%s: not decidable here - the evaluation went through the test '%s', which involves a fixed input but could not be folded" % (fi.qualname, env["@partial"]))
+    return ck.ob(rule, fi, node, ok, what, construct=construct)
+
+
 TECHNIQUE = "partial evaluation of the transform's CFG over the full valuation space + call-sequence typestate + who-may-write / who-may-call"
 EXPLANATION = (
     "GZipContentEncoding.transform_first_chunk is partially evaluated for all 128 valuations of (gzip accepted, finishing, header presence, "
@@ -86,6 +94,7 @@ LEVEL_NOTE = "HTTPHeaders modelled as the set of names present; GzipFile/BytesIO
 WEB = "tornado/web.py"
 GZ = "GZipContentEncoding"
 FLAG = "self._gzipping"
+GZ_MARK = b"\x1f\x8b" + b"z" * 11  # stands for the compressed first chunk (13 bytes, unlike any probe length)
 RH = "RequestHandler"
 
 
@@ -119,19 +128,8 @@ def check_first_chunk(ck):
         whitelist = UNK
     # every class-level constant of the transform is available to the evaluation as self.<NAME> (a refactoring may
     # move a literal there, or add a table next to CONTENT_TYPES)
-    class_consts = {}
-    for st in ck.repo.cls(WEB, GZ).body:
-        tgt = st.targets[0] if isinstance(st, ast.Assign) and len(st.targets) == 1 else (st.target if isinstance(st, ast.AnnAssign) and st.value is not None else None)
-        if isinstance(tgt, ast.Name):
-            try:
-                v = q.fold(st.value, {})
-            except Exception:
-                continue
-            try:
-                hash(v)
-            except TypeError:
-                continue
-            class_consts["self." + tgt.id] = frozenset(v) if isinstance(st.value, ast.Set) else v
+    class_consts = module_constants(fi)
+    class_consts.update(class_constants(ck.repo, WEB, GZ))
     # Content types used as probes.  The property does not enumerate the compressible set (tornado's whitelist is a
     # tunable class attribute); what it does fix is that opaque, already-compressed media are not compressible.
     PROBES = (("text/html; charset=UTF-8", True), ("image/png", False), ("application/zip", False), ("application/octet-stream; x=1", False), ("video/mp4", False))
@@ -160,17 +158,22 @@ def check_first_chunk(ck):
                     elif key == "Content-Encoding":
                         env["@ce"] = v.value if isinstance(v, ast.Constant) else "?"
                     elif key == "Content-Length":
-                        inner = v.args[0] if q.is_call(v, "str") and len(v.args) == 1 else v
-                        fresh = q.is_call(inner, "len") and len(inner.args) == 1 and q.dotted(inner.args[0]) == env.get("@chunkvar")
-                        env["@cl"] = "recomputed" if (fresh and env.get("@transformed")) else "stale"
+                        # the compressed chunk is a marker of known length: the value stored must be that length
+                        val = try_fold(v, env)
+                        if val is UNK:
+                            env["@cl"] = "?"
+                        else:
+                            env["@cl"] = "recomputed" if (env.get("@transformed") is True and str(val) == str(len(GZ_MARK))) else "stale"
             if isinstance(st, ast.Assign) and q.is_call(st.value, "self.transform_chunk"):
                 c = st.value
-                ok_args = len(c.args) == 2 and q.dotted(c.args[0]) == chunk and q.dotted(c.args[1]) == fin
+                a_chunk, a_fin = q.arg(c, 0, "chunk"), q.arg(c, 1, "finishing")
+                ok_args = a_chunk is not None and a_fin is not None and q.dotted(a_chunk) == chunk and q.dotted(a_fin) == fin
                 names = [t.id for t in st.targets if isinstance(t, ast.Name)]
                 if ok_args and names and env.get(FLAG) is True:
                     env["@transformed"] = True
                     env["@chunkvar"] = names[0]
                     env[len_key] = UNK
+                    env["call:" + q.unparse(c)] = GZ_MARK  # what transform_chunk returns: "the compressed bytes"
                 else:
                     env["@transformed"] = "bad-call"
             elif isinstance(st, ast.Assign) and any(isinstance(t, ast.Name) and t.id == env.get("@chunkvar") for t in st.targets):
@@ -209,6 +212,8 @@ def check_first_chunk(ck):
                 if gz is UNK or not isinstance(hout, frozenset):
                     raise AnalysisError("transform_first_chunk: flag/headers not determined at exit under " + label)
                 gz = bool(gz)
+                if env.get("@cl") == "?":
+                    raise AnalysisError("transform_first_chunk: the value stored in Content-Length cannot be evaluated under " + label)
                 if env.get("@vary") == "?":
                     raise AnalysisError("transform_first_chunk: the value stored in Vary cannot be evaluated statically under " + label)
                 key = (gz, hout, env.get("@vary"), env.get("@ce"), env.get("@cl"), env.get("@transformed"), env.get("@ret"), env.get("@chunkvar"))
@@ -216,28 +221,28 @@ def check_first_chunk(ck):
                     continue
                 seen.add(key)
                 desc = "%s -> gzipping=%s headers_out={%s}" % (label, gz, ",".join(sorted(hout)))
-                ck.ob("C29.vary", fi, fi.node, "Vary" in hout and env.get("@vary") is True, "Vary includes Accept-Encoding on every path: " + desc, construct="Vary: Accept-Encoding not set (gzipping=%s)" % gz)
+                OB(ck, env, "C29.vary", fi, fi.node, "Vary" in hout and env.get("@vary") is True, "Vary includes Accept-Encoding on every path: " + desc, construct="Vary: Accept-Encoding not set (gzipping=%s)" % gz)
                 allowed = gz_in and compressible and "Content-Encoding" not in hin
-                ck.ob("C29.only-when-allowed", fi, fi.node, (not gz) or allowed, "compression is on only if the request accepted gzip, the type is not opaque/already-compressed media and no Content-Encoding was set: " + desc,
+                OB(ck, env, "C29.only-when-allowed", fi, fi.node, (not gz) or allowed, "compression is on only if the request accepted gzip, the type is not opaque/already-compressed media and no Content-Encoding was set: " + desc,
                       construct="compressing although accepts_gzip=%s content_type=%s encoding_present=%s" % (gz_in, ctype_probe.split(";")[0], "Content-Encoding" in hin))
-                ck.ob("C29.only-when-allowed", fi, fi.node, not (gz and finishing and not big), "an empty single-flush body (304/204/HEAD-style responses) is never turned into a non-empty gzip body: " + desc,
+                OB(ck, env, "C29.only-when-allowed", fi, fi.node, not (gz and finishing and not big), "an empty single-flush body (304/204/HEAD-style responses) is never turned into a non-empty gzip body: " + desc,
                       construct="compressing an empty final body")
                 ce_ok = (env.get("@ce") == "gzip" and "Content-Encoding" in hout) if gz else (env.get("@ce") is None and (("Content-Encoding" in hout) == ("Content-Encoding" in hin)))
-                ck.ob("C29.encoding-header", fi, fi.node, ce_ok, "Content-Encoding: gzip is set exactly when the body is compressed: " + desc, construct="gzipping=%s but Content-Encoding set=%s" % (gz, env.get("@ce")))
+                OB(ck, env, "C29.encoding-header", fi, fi.node, ce_ok, "Content-Encoding: gzip is set exactly when the body is compressed: " + desc, construct="gzipping=%s but Content-Encoding set=%s" % (gz, env.get("@ce")))
                 ret = env.get("@ret")
                 ret_ok = isinstance(ret, tuple) and ret[0] == status and ret[1] == hd and ret[2] == env.get("@chunkvar")
                 if gz:
-                    ck.ob("C29.first-chunk", fi, fi.node, env.get("@transformed") is True and ret_ok, "when compressing, the first chunk goes through transform_chunk(chunk, finishing) and that result is returned: " + desc,
+                    OB(ck, env, "C29.first-chunk", fi, fi.node, env.get("@transformed") is True and ret_ok, "when compressing, the first chunk goes through transform_chunk(chunk, finishing) and that result is returned: " + desc,
                           construct="first chunk not compressed/returned (transformed=%s)" % env.get("@transformed"))
                     cl_out = "Content-Length" in hout
                     if cl_out:
-                        ck.ob("C29.content-length", fi, fi.node, finishing and env.get("@cl") == "recomputed", "a Content-Length kept on a compressed response was recomputed from the compressed chunk of a finishing flush: " + desc,
+                        OB(ck, env, "C29.content-length", fi, fi.node, finishing and env.get("@cl") == "recomputed", "a Content-Length kept on a compressed response was recomputed from the compressed chunk of a finishing flush: " + desc,
                               construct="compressed response keeps Content-Length (finishing=%s, %s)" % (finishing, env.get("@cl") or "untouched"))
                     else:
-                        ck.ob("C29.content-length", fi, fi.node, True, "no Content-Length on the compressed response (falls back to chunked/close): " + desc)
+                        OB(ck, env, "C29.content-length", fi, fi.node, True, "no Content-Length on the compressed response (falls back to chunked/close): " + desc)
                 else:
                     same = ("Content-Length" in hout) == ("Content-Length" in hin) and env.get("@cl") is None
-                    ck.ob("C29.content-length", fi, fi.node, same and ret_ok and env.get("@transformed") is False, "when not compressing, chunk and Content-Length pass through untouched: " + desc,
+                    OB(ck, env, "C29.content-length", fi, fi.node, same and ret_ok and env.get("@transformed") is False, "when not compressing, chunk and Content-Length pass through untouched: " + desc,
                           construct="uncompressed response altered (Content-Length %s, transformed=%s)" % (env.get("@cl") or ("kept" if same else "changed"), env.get("@transformed")))
     ck.floor("C29.vary", n_val, 128, "valuations of transform_first_chunk")
 
@@ -270,18 +275,22 @@ def check_transform_chunk(ck):
 
     for gz in (False, True):
         for finishing in (False, True):
-            states = peval(fi.cfg, {FLAG: gz, fin: finishing, "@seq": (), "@ret": None}, hook=hook, track=lambda t: True, pure_methods=("getvalue",))
+            init = module_constants(fi)
+            init.update(class_constants(ck.repo, WEB, GZ))
+            init.update({FLAG: gz, fin: finishing, "@seq": (), "@ret": None})
+            states = peval(fi.cfg, init, hook=hook, track=lambda t: True, pure_methods=("getvalue",))
             exits = states.get(fi.cfg.exit.id, [])
             if not exits:
                 raise AnalysisError("transform_chunk has no normal exit")
             label = "gzipping=%s finishing=%s" % (gz, finishing)
-            for seq, ret, rdef, empty in sorted({(env.get("@seq"), env.get("@ret"), env.get("@def:%s" % env.get("@ret")), (chunk, False) in _f) for _f, env in exits}, key=repr):
+            for seq, ret, rdef, empty, partial in sorted({(env.get("@seq"), env.get("@ret"), env.get("@def:%s" % env.get("@ret")), (chunk, False) in _f, env.get("@partial")) for _f, env in exits}, key=repr):
+                env = {"@partial": partial}
                 calls = [(o, m) for o, m, _a in seq]
                 if gz and not finishing and empty and seq == () and ret == chunk and rdef is None:
-                    ck.ob("C29.stream-discipline", fi, fi.node, True, "an empty, non-final chunk may be passed through without touching the stream (%s)" % label)
+                    OB(ck, env, "C29.stream-discipline", fi, fi.node, True, "an empty, non-final chunk may be passed through without touching the stream (%s)" % label)
                     continue
                 if not gz:
-                    ck.ob("C29.stream-discipline", fi, fi.node, seq == () and ret == chunk and rdef is None, "not compressing: the chunk is returned unchanged and the gzip objects are not touched (%s)" % label,
+                    OB(ck, env, "C29.stream-discipline", fi, fi.node, seq == () and ret == chunk and rdef is None, "not compressing: the chunk is returned unchanged and the gzip objects are not touched (%s)" % label,
                           construct="identity broken: calls=%s" % (calls,))
                     continue
                 want_end = ("file", "close") if finishing else ("file", "flush")
@@ -292,29 +301,46 @@ def check_transform_chunk(ck):
                     and ("value", "getvalue") in calls
                     and calls.index(("file", "write")) < calls.index(want_end) < calls.index(("value", "getvalue"))
                 )
-                ck.ob("C29.stream-discipline", fi, fi.node, ok, "compressing: write(chunk), then %s, then read the buffer (%s; calls=%s)" % ("close() because this is the last chunk" if finishing else "flush() and never close() before the last chunk", label, calls),
+                OB(ck, env, "C29.stream-discipline", fi, fi.node, ok, "compressing: write(chunk), then %s, then read the buffer (%s; calls=%s)" % ("close() because this is the last chunk" if finishing else "flush() and never close() before the last chunk", label, calls),
                       construct="write/%s/getvalue order broken: %s %s" % (want_end[1], label, calls))
                 gv = calls.index(("value", "getvalue")) if ("value", "getvalue") in calls else -1
                 after = seq[gv + 1:] if gv >= 0 else ()
                 reset = ("value", "truncate", 0) in after and ("value", "seek", 0) in after
                 if not reset and ("value", "seek", 0) in after and ("value", "truncate", None) in after:
                     reset = after.index(("value", "seek", 0)) < after.index(("value", "truncate", None))  # truncate() at position 0
-                ck.ob("C29.stream-discipline", fi, fi.node, reset, "the buffer is emptied (truncate(0), seek(0)) after it was read, so no compressed byte is sent twice (%s)" % label, construct="buffer not reset after getvalue: %s" % label)
-                ck.ob("C29.stream-discipline", fi, fi.node, ret is not None and rdef == "buffer", "the compressed bytes read from the buffer are what is returned (%s)" % label, construct="returned value is not the buffer content: %s" % label)
+                OB(ck, env, "C29.stream-discipline", fi, fi.node, reset, "the buffer is emptied (truncate(0), seek(0)) after it was read, so no compressed byte is sent twice (%s)" % label, construct="buffer not reset after getvalue: %s" % label)
+                OB(ck, env, "C29.stream-discipline", fi, fi.node, ret is not None and rdef == "buffer", "the compressed bytes read from the buffer are what is returned (%s)" % label, construct="returned value is not the buffer content: %s" % label)
 
 
 def check_flag_sources(ck):
     init = F(ck, WEB, GZ + ".__init__")
     req = [p for p in init.params() if p != "self"]
-    stores = q.stores_to(init.node, FLAG)
-    ck.floor("C29.only-when-allowed", len(stores), 1, "initialisation of _gzipping")
-    for st in stores:
-        v = st.value
-        ok = False
-        if isinstance(v, ast.Compare) and len(v.ops) == 1 and isinstance(v.ops[0], ast.In) and isinstance(v.left, ast.Constant) and v.left.value == "gzip":
-            r = v.comparators[0]
-            ok = isinstance(r, ast.Call) and q.call_attr(r) == "get" and q.dotted(r.func.value) == "%s.headers" % req[0] and r.args and isinstance(r.args[0], ast.Constant) and r.args[0].value == "Accept-Encoding"
-        ck.ob("C29.only-when-allowed", init, st, ok, "the transform starts enabled only if the request's Accept-Encoding mentions gzip")
+    if not req:
+        raise AnalysisError("GZipContentEncoding.__init__ lost its request parameter")
+    reads = [c for c in q.calls(init.node) if isinstance(c.func, ast.Attribute) and c.func.attr == "get" and q.dotted(c.func.value) == "%s.headers" % req[0]
+             and isinstance(q.arg(c, 0), ast.Constant) and q.arg(c, 0).value == "Accept-Encoding"]
+    others = [c for c in q.calls(init.node) if isinstance(c.func, ast.Attribute) and (q.dotted(c.func.value) or "").startswith(req[0] + ".") and c not in reads]
+    wrong_header = [c for c in others if isinstance(c.func, ast.Attribute) and c.func.attr == "get" and q.dotted(c.func.value) == "%s.headers" % req[0] and isinstance(q.arg(c, 0), ast.Constant)]
+    if not reads and wrong_header and len(wrong_header) == len(others) and fully_inlined(init):
+        ck.ob("C29.only-when-allowed", init, wrong_header[0], False, "the transform consults the request's Accept-Encoding header (it reads %r instead)" % q.arg(wrong_header[0], 0).value, construct="decision taken from another request header")
+    elif not reads:
+        if others or not fully_inlined(init):
+            raise AnalysisError("GZipContentEncoding.__init__: the request's Accept-Encoding is not read through %s.headers.get('Accept-Encoding', ..): unknown idiom" % req[0])
+        ck.ob("C29.only-when-allowed", init, init.node, False, "the transform consults the request's Accept-Encoding header", construct="Accept-Encoding not consulted")
+    else:
+        key = "call:" + q.unparse(reads[0])
+        base = module_constants(init)
+        base.update(class_constants(ck.repo, WEB, GZ))
+        for accept, want in (("gzip, deflate", True), ("br, gzip;q=0.5", True), ("identity", False), ("deflate, br", False), ("", False), ("*", False), ("identity;q=1, *;q=0.1", False)):
+            env0 = dict(base)
+            env0[key] = accept
+            states = peval(init.cfg, env0, track=lambda t: True)
+            for _f, env in states.get(init.cfg.exit.id, []):
+                got = env.get(FLAG, UNK)
+                if got is UNK:
+                    raise AnalysisError("GZipContentEncoding.__init__: the initial compression flag cannot be evaluated for Accept-Encoding %r" % accept)
+                OB(ck, env, "C29.only-when-allowed", init, init.node, (not bool(got)) or want, "the transform starts enabled only when the request's Accept-Encoding mentions gzip (Accept-Encoding: %r -> %s)" % (accept, bool(got)),
+                   construct="initial flag %s for Accept-Encoding %r" % (bool(got), accept.split(",")[0]))
     for fi in ck.repo.direct_methods(WEB, GZ):
         if fi.name in ("__init__", "transform_first_chunk"):
             continue
